@@ -233,6 +233,11 @@ func runC07(r *Run) {
 	checkFresh(r, fr, cl)
 	fr.Done()
 
+	// ---- a destination written in place never views the message
+	ad := r.Rule("C07.aliasdest", "a destination slice field that a typed getter writes in place (element stores, copy, XorBytes, append) is never assigned a view of the message's bytes: a later call with the same destination cannot write into a message", 2)
+	checkAliasDest(r, ad, cl, p.Meth("Message", "Get"))
+	ad.Done()
+
 	// ---- tags: nil-return conditions of the check helpers (compared across configurations in Post)
 	tg := r.Rule("C07.tags", "CheckSize, CheckOverflow, checkHMAC and checkFingerprint return nil exactly under their reference condition in this build configuration (the parent compares release and debug)", 4)
 	r.Res.Extra = map[string]interface{}{"nilconds": checkHelperConds(r, tg)}
@@ -607,6 +612,57 @@ func checkFresh(r *Run, rc *RuleCtx, cl *closures) {
 						zeroLoops = append(zeroLoops, lp)
 					}
 				})
+				// whole-slice clearing instructions: clear(field), or copy(field, zero[:]) from a local array
+				// that is never written and is at least as long as the resliced field can be
+				var clearers []ssa.Instruction
+				clearerCap := map[ssa.Instruction]int64{} // copy from a zero array: its length
+				eachInstr(fn, func(b *ssa.BasicBlock, i int, in ssa.Instruction) {
+					call, ok := in.(*ssa.Call)
+					if !ok {
+						return
+					}
+					if isBuiltinCall(call, "clear") && valueIsLoadOfField(call.Call.Args[0], fv) {
+						clearers = append(clearers, call)
+						return
+					}
+					if !isBuiltinCall(call, "copy") || !valueIsLoadOfField(call.Call.Args[0], fv) {
+						return
+					}
+					src, isSl := call.Call.Args[1].(*ssa.Slice)
+					if !isSl || src.High != nil || src.Max != nil {
+						return
+					}
+					if src.Low != nil {
+						if c, isC := constInt(src.Low); !isC || c != 0 {
+							return
+						}
+					}
+					al, isA := src.X.(*ssa.Alloc)
+					if !isA {
+						return
+					}
+					at, isArr := al.Type().(*types.Pointer).Elem().Underlying().(*types.Array)
+					if !isArr {
+						return
+					}
+					// the array stays zero: its only uses are slicing for reading
+					for _, u := range *al.Referrers() {
+						switch y := u.(type) {
+						case *ssa.Slice:
+							for _, u2 := range *y.Referrers() {
+								c2, isC := u2.(*ssa.Call)
+								if !isC || !isBuiltinCall(c2, "copy") || c2.Call.Args[1] != ssa.Value(y) || c2.Call.Args[0] == ssa.Value(y) {
+									return
+								}
+							}
+						case *ssa.DebugRef:
+						default:
+							return
+						}
+					}
+					clearers = append(clearers, call)
+					clearerCap[call] = at.Len()
+				})
 				idx := errorResultIndex(fn)
 				for _, s := range reuse {
 					// only the final reslice matters: one that no later reuse-store of the field follows
@@ -631,6 +687,32 @@ func checkFresh(r *Run, rc *RuleCtx, cl *closures) {
 								cleared = true
 							}
 						}
+						for _, ci := range clearers {
+							if !instrDominates(s, ci) || !blockDominates(ci.Block(), ret.Block()) {
+								continue
+							}
+							if n, bounded := clearerCap[ci]; bounded {
+								// the field's length at the copy is the final reslice's constant bound
+								fits := false
+								if cs := constSetOf(s.Val.(*ssa.Slice).High, 0); cs != nil {
+									fits = true
+									for c := range cs {
+										if c > n {
+											fits = false
+										}
+									}
+								}
+								for _, a := range fieldAccesses(fn, fv) {
+									if s3, ok := a.Instr.(*ssa.Store); ok && a.Kind == "store" && s3 != s && instrDominates(s, s3) && instrDominates(s3, ci) {
+										fits = false
+									}
+								}
+								if !fits {
+									continue
+								}
+							}
+							cleared = true
+						}
 						if !cleared {
 							rc.Violation(fn, instrPos(s), "reused "+fv.Name()+" not cleared", "the destination keeps its old backing bytes and nothing clears all of them before the getter reports success: bytes the value does not overwrite (a short value) show the address of an earlier message")
 							break
@@ -640,4 +722,91 @@ func checkFresh(r *Run, rc *RuleCtx, cl *closures) {
 			}
 		}
 	}
+}
+
+// checkAliasDest: a destination slice field that a getter writes in place (element stores, copy, XorBytes
+// or append onto the field's own storage) must never be made to view the message: the next decode into
+// the same destination would then write into the message it read before.
+func checkAliasDest(r *Run, rc *RuleCtx, cl *closures, getM *ssa.Function) {
+	p := r.P
+	msg := p.Named("Message")
+	rawF := FieldVar(msg, "Raw")
+	le := newLinEval(p)
+	for _, fn := range cl.Getters {
+		if fn.Blocks == nil || len(fn.Params) == 0 {
+			continue
+		}
+		pt, ok := fn.Params[0].Type().Underlying().(*types.Pointer)
+		if !ok {
+			continue
+		}
+		st, isSt := pt.Elem().Underlying().(*types.Struct)
+		if !isSt {
+			continue
+		}
+		for fi := 0; fi < st.NumFields(); fi++ {
+			fv := st.Field(fi)
+			if _, isSl := fv.Type().Underlying().(*types.Slice); !isSl {
+				continue
+			}
+			// in-place writers through the field
+			var writer ssa.Instruction
+			eachInstr(fn, func(b *ssa.BasicBlock, i int, in ssa.Instruction) {
+				switch x := in.(type) {
+				case *ssa.Store:
+					if ia, isIA := x.Addr.(*ssa.IndexAddr); isIA && valueIsLoadOfField(ia.X, fv) {
+						writer = in
+					}
+				case *ssa.Call:
+					switch {
+					case isBuiltinCall(x, "copy") && valueIsLoadOfField(sliceRoot(x.Call.Args[0]), fv):
+						writer = in
+					case isBuiltinCall(x, "append") && valueIsLoadOfField(sliceRoot(x.Call.Args[0]), fv):
+						writer = in
+					case isPkgFuncCall(x, "github.com/pion/transport/v3/utils/xor", "XorBytes") && valueIsLoadOfField(sliceRoot(x.Call.Args[0]), fv):
+						writer = in
+					}
+				}
+			})
+			if writer == nil {
+				continue
+			}
+			r.Analysed(fn)
+			rc.Instance(fnName(fn)+"|"+fv.Name(), true, map[string]string{"getter": fnName(fn), "field_written_in_place": fv.Name(), "writer": shortInstr(writer)})
+			for _, a := range fieldAccesses(fn, fv) {
+				s, isS := a.Instr.(*ssa.Store)
+				if !isS || a.Kind != "store" {
+					continue
+				}
+				root, _, _ := le.window(s.Val)
+				views := false
+				if e, isE := root.(*ssa.Extract); isE {
+					if c, isC := e.Tuple.(*ssa.Call); isC && getM != nil && callsFn(c, getM) {
+						views = true
+					}
+				}
+				if rawF != nil && valueIsLoadOfField(root, rawF) {
+					views = true
+				}
+				if views {
+					rc.Violation(fn, instrPos(s), fv.Name()+" = "+exprDepth(s.Val, 0), "the destination is made to view the message's own bytes, and this getter also writes the destination in place ("+shortInstr(writer)+"): the next call with the same destination overwrites the message it was filled from")
+				}
+			}
+		}
+	}
+}
+
+func sliceRoot(v ssa.Value) ssa.Value {
+	for i := 0; i < 8; i++ {
+		switch x := v.(type) {
+		case *ssa.Slice:
+			v = x.X
+			continue
+		case *ssa.ChangeType:
+			v = x.X
+			continue
+		}
+		break
+	}
+	return v
 }
